@@ -1,5 +1,5 @@
 (* C05 — Revoked or unverifiable certificates are never accepted when revocation is on. *)
-From V Require Import Model.Verify Proofs.Verify.
+From V Require Import Model.Verify Proofs.Verify Proofs.VerifyComplete.
 
 (* With revocation checking on, an accepted quote implies collateral fetching was
    on, a Root CA CRL authenticated by (name + signature of) the chain's root and
@@ -39,3 +39,18 @@ Theorem C05_conflict : forall w q o wall,
   fst (verify w q (Some o) wall) <> Ok tt.
 Proof. exact revocation_needs_collateral. Qed.
 Print Assumptions C05_conflict.
+
+(* The converse reading: whenever revocation checking is on and the CRLs that
+   the endpoints deliver list the PCK leaf (PCK CRL) or the intermediate, the
+   TCB-Info signer or the QE-Identity signer (Root CA CRL), the quote is refused --
+   whatever else is true of it. *)
+Theorem C05_listed_rejected : forall w qq o wall ch ext ca c,
+  extract_chain w qq = Ok ch -> cPckExt (chLeaf ch) = Some ext -> extract_ca (chLeaf ch) = Ok ca ->
+  fst (obtain_collateral w (eFmspc ext) ca o) = Ok c -> optCheckRevocations o = true ->
+  ((exists pc, colPckCrl c = Some pc /\ In (cSerial (chLeaf ch)) (rlRevoked pc)) \/
+   (exists rc, colRootCrl c = Some rc /\
+      (In (cSerial (chInter ch)) (rlRevoked rc) \/ In (cSerial (colTcbSigner c)) (rlRevoked rc) \/
+       In (cSerial (colQeSigner c)) (rlRevoked rc)))) ->
+  fst (verify w (Some qq) (Some o) wall) <> Ok tt.
+Proof. exact listed_rejected. Qed.
+Print Assumptions C05_listed_rejected.
